@@ -1,4 +1,5 @@
 import OrbitModel.Proofs.History
+import OrbitModel.Proofs.GenEqWrite
 import OrbitModel.Proofs.ViewRace
 /-!
 # C06 — key-value store = last-writer-wins replay of its log in causal order
@@ -94,5 +95,9 @@ store, corpus/C06) -/
 theorem unlocked_copy_left_a_stale_view :
     let s := View.run false (View.init 2) [0, 0, 1, 1, 1, 0]
     View.allDone s = true ∧ s.logLen = 2 ∧ s.view = 1 := View.unlocked_copy_leaves_a_stale_view
+
+/-- both indices of the Go text of this run copy the log under their lock -/
+theorem view_update_order_tied_to_go_text : Gen.kvIndexOrder = Order.updateIndex ∧
+    Gen.docIndexOrder = Order.updateIndex := gen_updateIndex_order
 
 end Orbit.C06
